@@ -139,9 +139,9 @@ def _simulated(ctx, binary, name, c, num, depth, max_replay):
     # (G, tracked) the operations of the same behaviours, then every node runs the body of the real poller loop
     # (repair_members with its keyspace tracker) against all others until a whole round asks for no difference
     rep["tracked"] = whole("tracked", n_tracked)
-    if rep["tracked"]["poller_fixpoints"] < 0.9 * rep["tracked"]["behaviours"]:
-        raise vlib.ToolError("tracked mode: only %d of %d behaviours reached the poller's fixpoint within six rounds" % (
-            rep["tracked"]["poller_fixpoints"], rep["tracked"]["behaviours"]))
+    # pollers that keep asking for differences are not judged in tracked mode; if that happens more than occasionally and
+    # nothing else was found, the run says nothing (decided in judge(), after every violation has been collected)
+    rep["tracked"]["mostly_undecided"] = rep["tracked"]["poller_fixpoints"] < 0.9 * rep["tracked"]["behaviours"]
     os.remove(out_file)
     # (V) what every keyspace actor of the real nodes did during the replay, against Trace_KeyspaceActor.tla
     rep["actor_trace"] = actor_traces.validate(ctx, actor_trace.files_in(actors_dir), "actors_" + name, ACTOR_PROPS[ctx.prop],
@@ -189,6 +189,11 @@ def judge(ctx, results, props):
                                            "why": v["why"][:6], "behaviour": v["behaviour"], "expect": v.get("expect"), "reads": v.get("reads"),
                                            "mode": v.get("mode", "fine")})
         samples += r["rep"]["samples"][:2]
+    undecided = [r["name"] for r in results if r["kind"] == "simulated" and r["rep"]["tracked"].get("mostly_undecided")]
+    if undecided and not ctx.violations:
+        r = [x for x in results if x["name"] == undecided[0]][0]["rep"]["tracked"]
+        raise vlib.ToolError("tracked mode (%s): only %d of %d behaviours reached the poller's fixpoint within six rounds and no other "
+                             "component found a violation" % (undecided[0], r["poller_fixpoints"], r["behaviours"]))
     model_bad = [r["name"] for r in results if (r["kind"] == "exhaustive" and not r["ok"]) or (r["kind"] == "simulated" and r["violated"])]
     if model_bad and not real_found:
         raise vlib.ToolError("TLC reports a violation on the faithful layer (configs %s) but no replayed behaviour shows it on the real code: "
